@@ -1288,4 +1288,88 @@ theorem concRun_inv (tmp : Nat → String) (chunks : Nat → List (List Nat)) (o
     simp only [concRun, List.foldl_cons]
     exact ih _ (concStep_inv tmp chunks old htmp hne c i h)
 
+/-! ### the size of a legal file, and GetFavorites -/
+
+theorem deep_total : ∀ (items : List Item), deepB items + deepL items + deepF items = totalCount items
+  | [] => by simp [deepB, deepL, deepF, totalCount]
+  | .board .. :: r => by have := deep_total r; simp [deepB, deepL, deepF, totalCount]; omega
+  | .line .. :: r => by have := deep_total r; simp [deepB, deepL, deepF, totalCount]; omega
+  | .folder _ _ _ _ _ _ sub :: r => by
+      have := deep_total r; have := deep_total sub
+      simp [deepB, deepL, deepF, totalCount]; omega
+
+theorem MAX_FILE_eq : MAX_FILE = 57350 := by decide
+
+theorem serFav_length (f : Fav) (h : wfFav f = true) :
+    (serFav f).length = 4 * (1 + deepF f.items) + 14 * deepB f.items + 3 * deepL f.items + 52 * deepF f.items := by
+  simp [wfFav] at h
+  have h1 := serSubs_length f.items h.2
+  have h2 := encEntries_length f.items (rtOK_of_wf f.items h.2)
+  simp [serFav, hdr, le16, h2]
+  omega
+
+/-- a chain of `n` nested empty-titled folders: the most expensive tree per entry. -/
+def chainItems : Nat → List Item
+  | 0 => []
+  | n + 1 => [.folder 1 1 (List.replicate 49 0) 0 0 (cntF (chainItems n)) (chainItems n)]
+
+theorem chain_facts : ∀ n, wfItems (chainItems n) = true ∧ cntB (chainItems n) = 0 ∧ cntL (chainItems n) = 0
+    ∧ cntF (chainItems n) ≤ 1 ∧ (chainItems n).length ≤ 1 ∧ totalCount (chainItems n) = n
+    ∧ deepF (chainItems n) = n ∧ deepB (chainItems n) = 0 ∧ deepL (chainItems n) = 0
+  | 0 => by simp [chainItems, wfItems, totalCount, deepF, deepB, deepL]
+  | n + 1 => by
+      obtain ⟨h1, h2, h3, h4, h5, h6, h7, h8, h9⟩ := chain_facts n
+      simp [chainItems, wfItems, rtOK, fitsLevel, totalCount, deepF, deepB, deepL, Item.isBoard, Item.isLine,
+        Item.isFolder, h1, h2, h3, h6, h7, h8, h9]
+      omega
+
+def chainFav (n : Nat) : Fav := ⟨0, 0, cntF (chainItems n), chainItems n⟩
+
+theorem chainFav_wf (n : Nat) : wfFav (chainFav n) = true := by
+  obtain ⟨h1, h2, h3, h4, h5, _⟩ := chain_facts n
+  simp [wfFav, chainFav, h1, h2, h3, fitsLevel]
+  refine ⟨decide_eq_true ?_, decide_eq_true ?_⟩ <;> omega
+
+theorem chainFav_length (n : Nat) : (serFav (chainFav n)).length = 4 + 56 * n := by
+  obtain ⟨_, _, _, _, _, _, h7, h8, h9⟩ := chain_facts n
+  rw [serFav_length _ (chainFav_wf n)]
+  simp [chainFav, h7, h8, h9]
+  omega
+
+/-- the regenerated read limit of GetFavorites, if any, is not below the largest legal file. -/
+def limitOK : Bool :=
+  match GET_LIMIT with
+  | none => true
+  | some n => decide (MAX_FILE ≤ n)
+
+theorem readAllLimited_id (c : List Nat) (hl : limitOK = true) (hc : c.length ≤ MAX_FILE) :
+    readAllLimited GET_LIMIT c = c := by
+  unfold limitOK at hl
+  cases h : GET_LIMIT with
+  | none => simp [readAllLimited]
+  | some n =>
+    rw [h] at hl
+    simp at hl
+    simp only [readAllLimited]
+    exact List.take_of_length_le (by omega)
+
+theorem totalCount_renum : ∀ (items : List Item) (l f : Nat), totalCount (renumFrom l f items) = totalCount items
+  | [], _, _ => by simp [renumFrom]
+  | .board .. :: r, l, f => by simp [renumFrom, totalCount, totalCount_renum r]
+  | .line .. :: r, l, f => by simp [renumFrom, totalCount, totalCount_renum r]
+  | .folder _ _ _ _ _ _ sub :: r, l, f => by simp [renumFrom, totalCount, totalCount_renum r, totalCount_renum sub]
+
+theorem totalCount_keepValid : ∀ (items : List Item), totalCount (keepValid items) ≤ totalCount items
+  | [] => by simp [keepValid]
+  | .board a .. :: r => by
+      have := totalCount_keepValid r
+      by_cases hv : isValidAttr a = true <;> simp [keepValid, hv, totalCount] <;> omega
+  | .line a _ :: r => by
+      have := totalCount_keepValid r
+      by_cases hv : isValidAttr a = true <;> simp [keepValid, hv, totalCount] <;> omega
+  | .folder a _ _ _ _ _ sub :: r => by
+      have := totalCount_keepValid r
+      have := totalCount_keepValid sub
+      by_cases hv : isValidAttr a = true <;> simp [keepValid, hv, totalCount] <;> omega
+
 end PttVerif.C19
